@@ -46,6 +46,7 @@ fn strata(t: Tier) -> Vec<Stratum> {
 pub const ALPHABET16: [u8; 16] = [0x01, b'a', b'b', b'z', b'A', b'_', b'0', b'9', 0x7f, 0x80, 0x81, 0xc3, 0xa9, 0xf0, 0xfe, 0xff];
 
 /// What a lookup returned, reduced to comparable data.
+#[derive(Debug)]
 pub enum Found {
     None,
     Err(String),
@@ -266,6 +267,20 @@ fn well_formed(ctx: &mut Ctx) {
         }
         if bucket_used.contains(&(h % nbucket)) {
             ctx.count("absent:same-bucket-as-present");
+        }
+        // the same absent name as a slice of the string table itself, starting at the address of a stored name
+        if let Some(j) = (1..names.len()).find(|&j| names[j].len() > a.len() && names[j].starts_with(&a)) {
+            let stn = tab.recs[j].get("st_name") as usize;
+            if let Some(alias) = tab.strtab.get(stn..stn + a.len()) {
+                ctx.count("absent:query-aliases-a-stored-name");
+                match find_any(enc, any, &hash, &tab.symtab, &tab.strtab, alias) {
+                    Ok(Found::None) => {}
+                    other => {
+                        ctx.violation("sysv:absent-found:aliasing-query", format!("absent name {} queried as the string-table slice [{stn},+{}) (a prefix of symbol {j}'s name): {:?}", hex_trunc(&a, 40), a.len(), other.map(|f| format!("{f:?}"))));
+                        return;
+                    }
+                }
+            }
         }
         match find_any(enc, any, &hash, &tab.symtab, &tab.strtab, &a) {
             Ok(Found::None) => ctx.count("absent-none"),
